@@ -9,6 +9,7 @@ use common::*;
 fn s(x: &str) -> String { x.to_string() }
 
 pub fn run(key: &str, a: &[String], out: &mut Out) {
+    out.begin(key, a);
     match key {
         "C07.sub" => {
             let (f, g) = (Bdd::from_string(&a[0]), Bdd::from_string(&a[1]));
